@@ -197,6 +197,27 @@ Theorem C14_wellformed_strict : forall iface parts,
 Proof. exact strict_join. Qed.
 Print Assumptions C14_wellformed_strict.
 
+(* HISTORY INDEPENDENCE: create_transport is a function of (defaults, descriptor).  In any history of
+   calls the k-th outcome is [create] of the k-th arguments, whatever was called before or after; the
+   same call gives the same outcome at any position of any history.  Trivial for the (stateless)
+   model - its content is that the correspondence checks the implementation against it along call
+   sequences (x,x / x,y,x / rejected,rejected / same descriptor with other defaults / mixed with the
+   parsers' own methods), late in a long-lived process, and under thread interleavings at line
+   granularity: every outcome must equal the outcome of the same call made alone in a fresh process. *)
+Theorem C14_history_independent : forall py_int py_hex py_float host_ok localhost_ip E calls k d s,
+  nth_error calls k = Some (d, s) ->
+  nth_error (run_history py_int py_hex py_float host_ok localhost_ip E calls) k
+  = Some (create py_int py_hex py_float host_ok localhost_ip E d s).
+Proof. exact history_independent. Qed.
+Print Assumptions C14_history_independent.
+
+Theorem C14_same_call_same_outcome : forall py_int py_hex py_float host_ok localhost_ip E calls calls' k k',
+  nth_error calls k = nth_error calls' k' ->
+  nth_error (run_history py_int py_hex py_float host_ok localhost_ip E calls) k
+  = nth_error (run_history py_int py_hex py_float host_ok localhost_ip E calls') k'.
+Proof. exact history_same_call_same_outcome. Qed.
+Print Assumptions C14_same_call_same_outcome.
+
 (* ---------------------------------------------------------------------------------------------
    Non-vacuity: concrete instances (library = plain decimal / 0x-hex readers, two entries)
    ------------------------------------------------------------------------------------------- *)
@@ -255,4 +276,12 @@ Example C14_ex_open :
        "tcp:h:5:junk"; "tcp:h:+5"; ":tcp:h:5"; "tcp:[h]:5"; "tcp:[::1]x:5"; "tcp:[abc$:5"; "tcp:h:007";
        "usbtmc:vendorid=1:vendorid=1:productid=3:serialnr=s"]%string
   = [false; false; false; true; true; true; true; true; true; true; true].
+Proof. vm_compute. reflexivity. Qed.
+
+Example C14_ex_history :
+  run_history ex_int ex_hex ex_float ex_host ex_ip ex_entries
+              [([], str_of "tcp:h:5025"); ([], str_of "tcp"); ([], str_of "tcp"); ([(n_port, VInt 7)], str_of "tcp:h")]
+  = [Ok (mkTransport KTcp [(n_host, VStr (str_of "h")); (n_port, VInt 5025); (str_of "connect_timeout", VInt 10)]);
+     Err; Err;
+     Ok (mkTransport KTcp [(n_host, VStr (str_of "h")); (n_port, VInt 7); (str_of "connect_timeout", VInt 10)])].
 Proof. vm_compute. reflexivity. Qed.
